@@ -175,8 +175,6 @@ def run_case(case, res):
                 res.count("fill_not_seen_by_callback(see C11)")
         if out.error is not None:
             res.count("runner_case_aborted:" + type(out.error).__name__)
-        if taps.hits["exec"] == 0:
-            res.inconc("matching-round tap never hit")
         return
     run = DirectRun(case)
     mon = C01Monitor(res, "direct")
